@@ -7,7 +7,7 @@ from fractions import Fraction as F
 
 import numpy as np
 
-from mc.estimators import build, ncomp
+from mc.estimators import build, ncomp, build_via, ROUTES
 from mc.util import call, raised, pick_frames
 from models import numref as R
 
@@ -218,9 +218,10 @@ def _exactness(rec, spec, e, n, ext, shape, what, prefit=False):
             kw_ = {k: v for k, v in spec[1].items() if k != "forces_at_data"}
             perm = np.arange(npts)[::-1] if spec[1]["forces_at_data"] == "reversed" else np.roll(np.arange(npts), 1)
             kw_["force_coords"] = (e[perm].copy(), n[perm].copy())
-            est = build([spec[0], kw_], ext)
+            est = build_via([spec[0], kw_], ext, ROUTES[(vi + npts) % 4])
         else:
-            est = build(spec, ext)
+            # the parameters reach the estimator through the constructor, set_params, attribute assignment or clone (rotating)
+            est = build_via(spec, ext, ROUTES[(vi + npts + len(str(spec))) % 4])
         # (VectorSpline2D documents that it keeps the force locations of its first fit, so a refitted instance is not an
         # "interpolator with forces at the data points" any more: outside this property, decided by C20)
         if prefit and npts > 2 and "VectorSpline2D" not in str(spec) and "forces_at_data" not in spec[1]:
